@@ -13,6 +13,8 @@ from pyvc import smt
 from pyvc.spec import LoopSpec, contract, forall, forall2
 from pyvc.values import BOOL, FRAG, GAP, INT, NONE, ROW, STR, TDict, TList, TOpt, TRef
 
+from .overlap_result import distinct_frags
+from .overlap_result import wf as or_wf
 from .scaffold import same_rows
 
 M = "tola.assembly.indexed_assembly.IndexedAssembly"
@@ -153,20 +155,20 @@ class _:
     @staticmethod
     def requires(o):
         # "every query interval [a,b] with 1 <= a <= b" (a <= b is the Fragment invariant)
+        d = o.self._scaffold_dict
         return [
             ("query", o.bait.start >= 1),
             ("two-dicts", ia_shape(o.self)),
             ("indexed", entry_wf(o.self, o.bait.name)),
+            # input validity: a scaffold does not list the same Fragment object twice
+            ("distinct-fragments", z3.Implies(d.has(o.bait.name), distinct_frags(d.get(o.bait.name).rows, o.ralloc))),
         ]
 
     @staticmethod
     def modifies(o):
-        return [("alloc",), ("fresh-lists", ROW), ("map", "H.Scaffold.name"), ("map", "H.Scaffold.rows"), ("map", "H.Scaffold.tag"),
-                ("map", "H.Scaffold.haplotype"), ("map", "H.Scaffold.rank"), ("map", "H.Scaffold.original_name"),
-                ("map", "H.Scaffold.original_tags"), ("map", "H.OverlapResult.bait"), ("map", "H.OverlapResult.start"),
-                ("map", "H.OverlapResult.end"), ("map", "H.$class"),
-                ("map", "H.OverlapResult.g_src"), ("map", "H.OverlapResult.g_lo"), ("map", "H.OverlapResult.g_hi"),
-                ("map", "H.OverlapResult.g_ts"), ("map", "H.OverlapResult.g_te")]
+        return [("fresh-objs", "OverlapResult", ["name", "rows", "tag", "haplotype", "rank", "original_name", "original_tags",
+                                                  "bait", "start", "end", "g_src", "g_lo", "g_hi", "g_ts", "g_te"]),
+                ("fresh-lists", ROW), ("alloc",)]
 
     # "never fails on such queries": the only error is an unknown / empty / unindexed scaffold
     raises = {
@@ -185,7 +187,9 @@ class _:
         if res.ty == NONE or not n.has("i_ovr") or not n.has("j_ovr"):
             return
         S = res.ty.sort() if isinstance(res.ty, _TOpt) else None
-        ref = S.val(res.z) if S is not None else res.z
+        if S is not None and z3.is_true(z3.simplify(res.z == S.none)):
+            return  # `return None`: no result object, no ghost state
+        ref = z3.simplify(S.val(res.z)) if S is not None else res.z
         sc = n.raw("scffld")
         _, mrows, _ = field_map(st, "Scaffold", "rows")
         for attr, val in (("g_src", mrows[sc.z]), ("g_lo", n.i_ovr), ("g_hi", n.j_ovr), ("g_ts", z3.IntVal(0)), ("g_te", z3.IntVal(0))):
@@ -227,6 +231,8 @@ class _:
             ("bait", z3.Implies(z3.Not(res.is_none), r.bait.z == o.bait.z)),
             ("ghost-source", z3.Implies(z3.Not(res.is_none), z3.And(r.g_src.same(rows), r.g_ts == 0, r.g_te == 0))),
             ("fresh", z3.Implies(z3.Not(res.is_none), z3.And(r.z >= o.alloc, out.z >= o.alloc))),
+            # establishes the representation invariant of overlap results (C18)
+            ("wf", z3.Implies(z3.Not(res.is_none), or_wf(r, src=rows))),
         ]
 
     loops = {
